@@ -64,12 +64,26 @@ SibPart(K) == LET idx == SelectSeq([i \in DOMAIN SibCand |-> i], LAMBDA i : i \i
               Dct([n \in DOMAIN idx |-> <<S(SibCand[idx[n]]), KeyVal(idx[n])>>])
 SibInputs == { Dct(<< <<S("g"), SibPart(Kg)>>, <<S("u"), SibPart(Ku)>> >>) : Kg \in SUBSET (DOMAIN SibCand), Ku \in SUBSET (DOMAIN SibCand) }
 
+\* ---- a field declared init=False (computed in __post_init__) is not part of the input at all: neither its name nor its alias
+\* is an accepted key, with or without allow_deserialization_not_by_alias, and its value is never read
+NCand == <<"a", "b", "c", "c_alias", "zz">>
+ClassN(al, fo, calias) ==
+  <<"dc", "KN",
+    << <<"a", <<"int">>, <<"req">>, <<>> >>,
+       <<"b", <<"int">>, <<"val", I(0)>>, << <<"alias", "b_alias">> >> >>,
+       <<"c", <<"int">>, <<"val", I(3)>>, << <<"init", FALSE>> >> \o (IF calias THEN << <<"alias", "c_alias">> >> ELSE <<>>)>> >>,
+    (IF al THEN << <<"allow_deserialization_not_by_alias", TRUE>> >> ELSE <<>>) \o (IF fo THEN << <<"forbid_extra_keys", TRUE>> >> ELSE <<>>) >>
+NClasses == { ClassN(al, fo, ca) : al \in BOOLEAN, fo \in BOOLEAN, ca \in BOOLEAN }
+NInputs == { Dct(LET idx == SelectSeq([i \in DOMAIN NCand |-> i], LAMBDA i : i \in K) IN
+                 [n \in DOMAIN idx |-> <<S(NCand[idx[n]]), KeyVal(idx[n])>>] \o << <<S("b_alias"), I(77)>> >>) : K \in SUBSET (DOMAIN NCand) }
+
 InputFor(K) == LET idx == SelectSeq([i \in DOMAIN Candidates |-> i], LAMBDA i : i \in K) IN
                Dct([n \in DOMAIN idx |-> <<S(Candidates[idx[n]]), KeyVal(idx[n])>>])
 
 Init == T = <<"start">> /\ v = <<"nov">> /\ kind = "start"
-Next == \/ kind = "start" /\ T' \in Classes \cup SibHolders /\ v' = v /\ kind' = "type"
-        \/ kind = "type" /\ T[2] # "SH" /\ T' = T /\ v' \in { InputFor(K) : K \in SUBSET (DOMAIN Candidates) } /\ kind' = "input"
+Next == \/ kind = "start" /\ T' \in Classes \cup SibHolders \cup NClasses /\ v' = v /\ kind' = "type"
+        \/ kind = "type" /\ T[2] = "KN" /\ T' = T /\ v' \in NInputs /\ kind' = "input"
+        \/ kind = "type" /\ T[2] \notin {"SH", "KN"} /\ T' = T /\ v' \in { InputFor(K) : K \in SUBSET (DOMAIN Candidates) } /\ kind' = "input"
         \/ kind = "type" /\ T[2] = "SH" /\ T' = T /\ v' \in SibInputs /\ kind' = "input"
 
 Dec == Unpack(T, DefaultCx, v)
@@ -78,16 +92,16 @@ Dec == Unpack(T, DefaultCx, v)
 \* exactly one key decides each field; a result never contains a value of a key outside the accepted set
 Allowed == { k[2] : k \in AllowedKeys(T) }
 ReadsOnlyAllowed ==
-  kind = "input" /\ T[2] # "SH" /\ ~IsUnknown(Dec) /\ IsOk(Dec) =>
+  kind = "input" /\ T[2] \notin {"SH", "KN"} /\ ~IsUnknown(Dec) /\ IsOk(Dec) =>
     \A i \in 1..2 : LET x == Dec[2][3][i] IN
        x = I(0) \/ \E c \in DOMAIN Candidates : KeyVal(c) = x /\ Candidates[c] \in Allowed /\ PairsHas(v[2], S(Candidates[c]))
 \* with forbid_extra_keys the error lists exactly the unexpected keys
 ExtraExact ==
-  kind = "input" /\ T[2] # "SH" /\ ~IsUnknown(Dec) /\ ~IsOk(Dec) /\ Dec[2][1] = "Extra" =>
+  kind = "input" /\ T[2] \notin {"SH", "KN"} /\ ~IsUnknown(Dec) /\ ~IsOk(Dec) /\ Dec[2][1] = "Extra" =>
     Dec[2][2] = { v[2][i][1] : i \in DOMAIN v[2] } \ AllowedKeys(T)
 \* the alias wins over the name when both are present
 AliasWins ==
-  kind = "input" /\ T[2] # "SH" /\ ~IsUnknown(Dec) /\ IsOk(Dec) =>
+  kind = "input" /\ T[2] \notin {"SH", "KN"} /\ ~IsUnknown(Dec) /\ IsOk(Dec) =>
     \A i \in 1..2 : LET f == DcFields(T)[i] IN
        (FAlias(T, f) # "#none" /\ PairsHas(v[2], S(FAlias(T, f)))) => Dec[2][3][i] = PairsGet(v[2], S(FAlias(T, f)))
 
@@ -98,5 +112,10 @@ SiblingAliasOwn ==
         upart == PairsGet(v[2], S("u"))
         ua == Dec[2][3][ui][3][2] IN
     ua = (IF PairsHas(upart[2], S("a")) THEN PairsGet(upart[2], S("a")) ELSE I(1))
+InitFalseNeverKey ==
+  (kind = "input" /\ T[2] = "KN") =>
+    LET given == { v[2][i][1] : i \in DOMAIN v[2] } \cap { S("c"), S("c_alias"), S("zz") } IN
+    /\ IsOk(Dec) => Dec[2][3][3] = I(3)
+    /\ (GetOpt(DcCfg(T), "forbid_extra_keys", FALSE) /\ given # {}) => (~IsOk(Dec) /\ Dec[2][1] = "Extra" /\ given \subseteq Dec[2][2])
 EmitInv == kind = "input" => PrintT(ToJson(<<"inp", T, v, Dec>>))
 =============================================================================
